@@ -398,8 +398,9 @@ BOUNDARY_LENS = [0, 1, 2, 5, 16, 100, 120, 125, 126, 127, 128, 129, 130, 200, 25
 class Gen:
     """All randomness comes from the single run PRNG handed in."""
 
-    def __init__(self, rng, big=0.08, huge=0.0, odd_ints=False, customs=(), rich=True):
+    def __init__(self, rng, big=0.08, huge=0.0, odd_ints=False, customs=(), rich=True, bad_text=0.0):
         self.r = rng
+        self.bad_text = bad_text  # probability of a str that cannot be encoded (lone surrogate): the send call must fail cleanly
         self.big = big
         self.huge = huge
         self.odd_ints = odd_ints
@@ -431,6 +432,8 @@ class Gen:
 
     def text(self):
         r = self.r
+        if self.bad_text and r.random() < self.bad_text:
+            return r.choice(["\udc80", "cn=\udcff,dc=x", "ok\ud800"])
         if r.random() < self.big:
             n = self.length()
             base = r.choice(["x", "é", "ab"])
